@@ -1,0 +1,44 @@
+//go:build verif
+
+// Contracts for the verification harness in /verif (comment-only; no declarations).
+package composite
+
+//@ pred validPC(pc) = pc != nil && pc.cc != nil && validAPIResource(pc.parentResource) && pc.dynClient != nil && pc.dynClient.resources != nil && pc.dynClient.dc != nil && validClient(pc.parentClient) && pc.parentInformer != nil && pc.finalizer != nil && pc.customize != nil && pc.syncHook != nil && pc.finalizeHook != nil && pc.queue != nil && pc.ssaOptions != nil && pc.mcClient != nil && pc.revisionLister != nil && pc.eventRecorder != nil
+
+//@ func parentController.claimChildren(pc, parent) (m, err)
+//@   requires validPC(pc) && parent != nil
+//@   ensures [C03] err == nil ==> m != nil && noNilChildren(m)
+//@   ensures [C03] err != nil ==> m == nil
+
+//@ func parentController.syncRevisions(pc, parent, observedChildren, relatedObjects) (res, err)
+//@   requires validPC(pc) && parent != nil
+//@   ensures [C09] err != nil ==> res == nil
+//@   ensures [C09] err == nil ==> res != nil
+
+//@ func parentController.makeSelector(pc, parent, extraMatchLabels) (sel, err)
+//@   requires validPC(pc) && parent != nil
+//@   ensures [C04] err == nil ==> sel != nil
+
+//@ func parentController.updateParentStatus(pc, parent, status) (res, err)
+//@   requires validPC(pc) && parent != nil
+
+//@ func parentController.enqueueParentObjectAfter(pc, obj, delay) ()
+//@   requires validPC(pc)
+
+//@ func parentController.syncParentObject(pc, parent) (err)
+//@   requires validPC(pc) && parent != nil
+//@   safety C13
+//@   bind call Manager.SyncObject: updatedParent, soErr
+//@   bind call parentController.claimChildren: observed, ccErr
+//@   bind call parentController.syncRevisions: syncResult, srErr
+//@   at parentController.claimChildren(p0, p) [C10]: soErr == nil && p == updatedParent
+//@   at parentController.syncRevisions(p0, p, obs, rel) [C09,C10]: soErr == nil && ccErr == nil && obs == observed && p == updatedParent
+//@   at ManageChildren(dc, us, p, obs, des, opts) [C09,C13]: srErr == nil && syncResult != nil
+//@   at ManageChildren(dc, us, p, obs, des, opts) [C02,C03]: ccErr == nil && obs == observed && p.GetUID() == parent.GetUID()
+//@   at ManageChildren(dc, us, p, obs, des, opts) [C10]: p.GetDeletionTimestamp() == nil || (pc.finalizer.Enabled && ContainsFinalizer(p, pc.finalizer.Name) && !ContainsFinalizer(p, "foregroundDeletion") && !ContainsFinalizer(p, "orphan"))
+//@   at ManageChildren(dc, us, p, obs, des, opts) [C10]: pc.finalizer.Enabled ==> ContainsFinalizer(p, pc.finalizer.Name) || p.GetDeletionTimestamp() != nil || syncResult.Finalized
+//@   at ResourceClient.RemoveFinalizer(rc, o, name) [C10]: srErr == nil && syncResult.Finalized && name == pc.finalizer.Name && o == updatedParent
+//@   at parentController.updateParentStatus(p0, p, status) [C11]: status == syncResult.Status && p.GetUID() == parent.GetUID()
+//@   ensures [C11] called(ManageChildren) ==> called(parentController.updateParentStatus)
+//@   ensures [C10,C12] called(Manager.SyncObject) && soErr != nil ==> err != nil && !called(parentController.claimChildren) && !called(ManageChildren)
+//@   ensures [C09,C12,C13] called(parentController.syncRevisions) && srErr != nil ==> err != nil && !called(ManageChildren)
